@@ -167,8 +167,29 @@ macro_rules! never_case {
     };
 }
 
-never_case!(never_two_cheap_ops, AutoStream::never, true, true);
-never_case!(new_never_two_cheap_ops, mk_never, true, true);
+never_case!(never_one_cheap_op, AutoStream::never, true, false);
+never_case!(new_never_one_cheap_op, mk_never, true, false);
+
+/// The strip state is carried from one call to the next exactly as in a strip stream: a
+/// first call that ends inside an escape sequence, then any 2 bytes.
+#[kani::proof]
+#[kani::unwind(10)]
+fn never_state_carried_across_calls() {
+    let tail: [u8; 2] = kani::any();
+    let mut got: Sink<8> = Sink::new();
+    let mut want: Sink<8> = Sink::new();
+    {
+        let wg: &mut (dyn std::io::Write + 'static) = &mut got;
+        let mut auto = AutoStream::never(wg);
+        let ww: &mut (dyn std::io::Write + 'static) = &mut want;
+        let mut strip = StripStream::new(ww);
+        assert!(auto.write_all(b"a\x1b[").is_ok() && strip.write_all(b"a\x1b[").is_ok());
+        assert!(auto.write_all(&tail).is_ok() && strip.write_all(&tail).is_ok());
+    }
+    assert!(sinks_equal(&got, &want), "inner writer received exactly what the strip stream delivers");
+    kani::cover!(want.len == 1);
+    kani::cover!(want.len == 2);
+}
 never_case!(never_one_write_op, AutoStream::never, false, false);
 never_case!(new_never_one_write_op, mk_never, false, false);
 
